@@ -95,7 +95,14 @@ func (t *Token) EncodeWriter(w io.Writer, privKey crypto.PrivKey, encFn codec.En
 		return err
 	}
 
-	return ipld.EncodeStreaming(w, node, encFn)
+	ew := envelope.NewErrWriter(w)
+
+	if err := ipld.EncodeStreaming(ew, node, encFn); err != nil {
+		return err
+	}
+
+	// not all encoders report the errors of the writer
+	return ew.Err()
 }
 
 // ToDagCbor marshals the Token to the DAG-CBOR format.
